@@ -182,3 +182,15 @@ Definition legal_seg (s : seg) : bool :=
   && forallb (fun c => negb (c =? slash) && negb (c =? 0)) s.
 Definition legal_name (n : path) : bool :=
   match n with [] => false | _ => forallb legal_seg n && negb (is_tmp_name n) end.
+
+(* what an HTTP client does to '.' and '..' segments of a URL path (RFC 3986 remove_dot_segments, as
+   httpx applies it): the S3 and B2 adapters put the name into the URL path *)
+Fixpoint dot_normalize_from (acc : list seg) (n : path) : path :=
+  match n with
+  | [] => rev acc
+  | s :: r =>
+      if str_eqb s [46] then dot_normalize_from acc r
+      else if str_eqb s [46; 46] then dot_normalize_from (tl acc) r
+      else dot_normalize_from (s :: acc) r
+  end.
+Definition dot_normalize (n : path) : path := dot_normalize_from [] n.
